@@ -10,7 +10,7 @@
     values, here Z.  Executable; no proofs here. *)
 From Coq Require Import List ZArith Bool.
 Import ListNotations.
-Open Scope Z_scope.
+Local Open Scope Z_scope.
 
 (** format.PageLocation *)
 Record page_loc := { pl_offset : Z; pl_size : Z; pl_first_row : Z }.
